@@ -555,6 +555,19 @@ theorem ks_jacobian_exact {ρ : ℝ} (hρ : ρ ≠ 0) {K : ℕ} (hK : 0 < K) (g 
     funext s; exact ksUpper_shift hρ hK _ m
   rw [e]; exact h
 
+/-- The Jacobian of the IKS aggregation in the code (quotient rule with the shifted exponential
+    weights, the shift treated as a constant) is the exact derivative of IKS. -/
+theorem iks_jacobian_exact (ρ : ℝ) {K : ℕ} (hK : 0 < K) (g : ℕ → ℝ → ℝ) (g' : ℕ → ℝ) (t m : ℝ)
+    (hg : ∀ k, k < K → HasDerivAt (g k) (g' k) t) :
+    HasDerivAt (fun s => iks ρ K (fun k => g k s) m)
+      ((-(∑ k ∈ Finset.range K, Real.exp (ρ * (g k t + 1 - m)) * (ρ * g' k))
+            / (expSum ρ K (fun k => g k t) m) ^ 2)
+          * (∑ k ∈ Finset.range K, g k t * Real.exp (ρ * (g k t + 1 - m)))
+        + ((∑ k ∈ Finset.range K, Real.exp (ρ * (g k t + 1 - m)) * g' k)
+            + ∑ k ∈ Finset.range K, Real.exp (ρ * (g k t + 1 - m)) * g k t * (ρ * g' k))
+          / expSum ρ K (fun k => g k t) m) t :=
+  iks_hasDerivAt ρ hK g g' t m hg
+
 /-- Non-vacuity: three values, `rho = 10`: the hypotheses are satisfiable and the two KS bounds
     enclose the maximum `2` in an interval of width `log 3 / 10`. -/
 example : (2 : ℝ) ≤ ksUpper 10 3 (fun k => (k : ℝ)) 2 ∧ ksUpper 10 3 (fun k => (k : ℝ)) 2 ≤ 2 + Real.log 3 / 10 := by
